@@ -169,6 +169,12 @@ def extract(src_text, spec):
         body = body.replace(old, new)
         sig = sig.replace(old, new)
         meta["edits"].append("rewrite %r -> %r (%d occurrence(s))" % (old, new, nb + ns))
+    # (f') optional respelling (spec key "opt_neg"): unary minus applied to a plain name / path in argument or initialiser position
+    #      (`-PI_DEG`, `-x`) is spelled `fneg(PI_DEG)`; names followed by `.`, `(` or `[` are left alone (precedence would change)
+    if spec.get("opt_neg"):
+        body, n = re.subn(r"([(,=]\s*)-([A-Za-z_][\w:]*)(?![\w(.\[:])", r"\1fneg(\2)", body)
+        if n:
+            meta["edits"].append("unary minus on a plain name spelled fneg(..) (%d occurrence(s))" % n)
     # (a) named return
     m = re.search(r"->\s*(.+)$", sig, re.S)
     if m:
